@@ -23,6 +23,7 @@ import (
 	"strings"
 
 	"github.com/goplus/gogen/packages"
+	"github.com/goplus/gogen/packages/cache"
 	"github.com/goplus/xgo/ast"
 	"github.com/goplus/xgo/cl"
 	"github.com/goplus/xgo/parser"
@@ -666,12 +667,25 @@ type packagesImporter = packages.Importer
 func main() {
 	root := flag.String("root", "", "directory of the scratch Go module the emitted packages are written to")
 	keepSrc := flag.Bool("gosrc", false, "include the emitted Go text in the result")
+	modDir := flag.String("moddir", "", "Go module directory the compiler's imports are resolved from (the harness module)")
 	flag.Parse()
 	if *root == "" {
 		fmt.Fprintln(os.Stderr, "-root required")
 		os.Exit(2)
 	}
-	imp := packages.NewImporter(token.NewFileSet())
+	if *modDir == "" {
+		*modDir, _ = os.Getwd()
+	}
+	// one `go list -export` for everything cl imports by itself (builtin.go) and the generated programs import
+	imp := packages.NewImporter(token.NewFileSet(), *modDir)
+	ch := cache.New(func(string, bool) string { return "" })
+	if err := ch.Prepare(*modDir, "fmt", "runtime", "os", "reflect", "strconv", "strings", "errors",
+		"github.com/qiniu/x/xgo", "github.com/qiniu/x/xgo/ng", "github.com/qiniu/x/stringutil",
+		"github.com/qiniu/x/stringslice", "github.com/qiniu/x/osx", "github.com/qiniu/x/errors"); err != nil {
+		fmt.Fprintln(os.Stderr, "go list -export:", err)
+		os.Exit(2)
+	}
+	imp.SetCache(ch)
 	sc := bufio.NewScanner(os.Stdin)
 	sc.Buffer(make([]byte, 1<<20), 1<<28)
 	w := bufio.NewWriter(os.Stdout)
